@@ -1,7 +1,7 @@
 """C19 - key material round-trips losslessly (structural part: codec pairing)."""
 from __future__ import annotations
 
-from sa.terms import C, CallT, P, is_call, is_const, is_lit, norm_codec, show
+from sa.terms import C, CallT, P, is_call, is_const, is_lit, norm_codec, show, show_fact
 from sa.walker import State, flatten_events
 
 from . import fn_site
@@ -165,6 +165,27 @@ def run(ctx):
             ok, why = False, "returns %s" % show(v)[:160]
     ctx.ob("R2", "keyfile-reader", fn_site(eng, rm).loc(), "keyfiles_to_keys " + ("reads name.pri / name.pub in binary mode into PrivateKey.from_bytes / PublicKey.from_bytes, in that order" if ok else "does not mirror the writer: " + why), ok)
 
+    # "keys written to key files load back": the reader turns a file away for its length (what
+    # from_bytes checks) and for nothing it finds *in* the bytes - every 32-byte string is a key
+    from . import mentions, own_site, refuted_at_defaults
+
+    turned_away = {}
+    for q_r in ("common.keyfiles_to_keys", "common.keyfiles_to_bytes"):
+        if q_r not in eng.prog.funcs:
+            continue
+        for p in eng.walk(q_r).paths:
+            if p.kind != "raise" or p.value.origin != "explicit" or not all(own_site(eng, st_, q_r) or st_.fn in ("common.keyfiles_to_keys", "common.keyfiles_to_bytes") for st_ in p.value.chain):
+                continue
+            facts = set(p.facts) | set(p.value.conds)
+            if refuted_at_defaults(eng, q_r, (eng.walk(q_r).params[0],), facts):
+                continue
+            about_reads = [f for f in facts if f[0] in ("truthy", "falsy", "eq", "ne", "cmp", "in", "notin", "ret") and _mentions_read(f)]
+            by_length = [f for f in about_reads if _mentions_len_of_read(f) or (f[0] in ("truthy", "falsy") and is_call(f[1], "method:read"))]
+            if about_reads and not by_length:
+                turned_away.setdefault(p.value.chain[-1].key(), (p.value, about_reads))
+    for k, (x, fs) in sorted(turned_away.items()):
+        ctx.ob("R2", "keyfile-refused-for-content|%s" % k, x.chain[-1].loc(), "the key-file reader raises %s depending on the bytes it read (%s), not on their number: some 32-byte keys that were written do not load back" % (x.exc, "; ".join(sorted(show_fact(f) for f in fs))[:160]), False)
+
     # ---- R3 equivalence
     for cls in (PUB, PRIV):
         short = cls.split(".")[-1]
@@ -230,3 +251,23 @@ def _const_int(t):
         if a is not None and b is not None:
             return {"+": a + b, "-": a - b, "*": a * b}[t[1]]
     return None
+
+
+def _mentions_read(f):
+    if isinstance(f, tuple):
+        if len(f) == 4 and f[0] == "call" and f[1] == "method:read":
+            return True
+        return any(_mentions_read(x) for x in f)
+    if isinstance(f, frozenset):
+        return any(_mentions_read(x) for x in f)
+    return False
+
+
+def _mentions_len_of_read(f):
+    if isinstance(f, tuple):
+        if len(f) == 4 and f[0] == "call" and f[1] == "builtin:len" and f[2] and is_call(f[2][0], "method:read"):
+            return True
+        return any(_mentions_len_of_read(x) for x in f)
+    if isinstance(f, frozenset):
+        return any(_mentions_len_of_read(x) for x in f)
+    return False
